@@ -421,6 +421,9 @@ func (h *histRun) exec() {
 		}
 		o := *po
 		h.ops = append(h.ops, o)
+		if !h.noOracle {
+			announce(map[string]interface{}{"history": h.ops, "failing_op": i})
+		}
 		ob := obsRaw{R: o.R, Class: "ok"}
 		w.dag.resetLogs()
 		storeBefore := len(w.dag.order)
